@@ -288,16 +288,24 @@ def level2_case(root, ninja, argdump, ins, outs, tag, fail):
         L.append(b"o%d = " % i + let_escape(n) + b"\n")
     L.append(b"tag = " + let_escape(tag) + b"\n")
     # an empty tag makes the whole content evaluate to nothing: the file must then be written empty, not left as it was
-    L.append(b"rule r\n  command = $ad $in -- $out > dump.bin && cat rsp.txt > rspcopy.bin $fail\n  rspfile = rsp.txt\n  rspfile_content = "
+    # other bindings of the rule are built from $in / $out too, and ninja evaluates them - unquoted, they are file names for
+    # its own use - before it evaluates the command: a depfile next to the output, or the response file itself
+    joined = b" ".join(outs)
+    variant = (sum(sum(n) for n in ins + outs) + len(tag)) % 3 if len(joined) < 200 else 0
+    rsp_name = (joined + b".rsp") if variant == 2 else b"rsp.txt"
+    L.append(b"rule r\n  command = $ad $in -- $out > dump.bin && "
+             + (b"find . -maxdepth 1 -name '*.rsp' -exec cat {} + > rspcopy.bin" if variant == 2 else b"cat rsp.txt > rspcopy.bin") + b" $fail\n"
+             + (b"  depfile = $out.d\n" if variant == 1 else b"")
+             + (b"  rspfile = $out.rsp\n" if variant == 2 else b"  rspfile = rsp.txt\n") + b"  rspfile_content = "
              + (b"RSP:$tag" if tag else b"$tag") + b"\n")
-    open(os.path.join(d, "rsp.txt"), "wb").write(b"STALE-CONTENT-OF-AN-EARLIER-FAILED-COMMAND")
+    open(os.path.join(d.encode(), rsp_name), "wb").write(b"STALE-CONTENT-OF-AN-EARLIER-FAILED-COMMAND")
     L.append(b"build " + b" ".join(b"${o%d}" % i for i in range(len(outs))) + b": r " + b" ".join(b"${i%d}" % i for i in range(len(ins))) + b"\n")
     L.append(b"  fail = " + (b"&& false" if fail else b"") + b"\n")
     open(os.path.join(d, "build.ninja"), "wb").write(b"".join(L))
     home = os.path.join(root, "home2")
     os.makedirs(home, exist_ok=True)
     p = subprocess.run([ninja], cwd=d, env=dict(os.environ, HOME=home, TERM="dumb", a="EXPANDED"), capture_output=True, timeout=60)
-    detail = dict(ins=[i.hex() for i in ins], outs=[o.hex() for o in outs], tag=tag.hex(), fail=fail, output=(p.stdout + p.stderr)[-300:].decode("latin-1"))
+    detail = dict(ins=[i.hex() for i in ins], outs=[o.hex() for o in outs], tag=tag.hex(), fail=fail, rule_variant=variant, output=(p.stdout + p.stderr)[-300:].decode("latin-1"))
     try:
         dump = open(os.path.join(d, "dump.bin"), "rb").read()
     except FileNotFoundError:
@@ -310,7 +318,7 @@ def level2_case(root, ninja, argdump, ins, outs, tag, fail):
     want_rsp = (b"RSP:" + tag) if tag else b""
     if rsp != want_rsp:
         return dict(kind="response file held %r when the command started, expected %r" % (rsp, want_rsp), detail=detail)
-    left = os.path.exists(os.path.join(d, "rsp.txt"))
+    left = os.path.exists(os.path.join(d.encode(), rsp_name))
     if fail and (p.returncode == 0 or not left):
         return dict(kind="failing command: exit %d, response file kept: %s (must be kept)" % (p.returncode, left), detail=detail)
     if not fail and (p.returncode != 0 or left):
